@@ -126,7 +126,12 @@ class World(object):
         if self.bytes_pool and self.rng.random() < 0.5:
             data = self.rng.choice(self.bytes_pool)
         else:
-            data, _ = serialize(recipe.gen_doc(self.rng, 2, 2))
+            data, lay = serialize(recipe.gen_doc(self.rng, 2, 2))
+            if self.rng.random() < 0.2:
+                # a load that fails half-way must not leave anything behind
+                # in the shared reader object
+                from mon.gen import corrupt
+                _, data = corrupt.corrupt(self.rng, data, lay, 1)
 
         def f():
             shared_exc = fresh_exc = None
